@@ -4,6 +4,7 @@ import (
 	"fmt"
 	"math/rand"
 	"sort"
+	"strings"
 
 	"github.com/smart-core-os/sc-golang/verifharness/lib"
 )
@@ -105,6 +106,68 @@ func fixedScenarios(f lib.Flags) []Scenario {
 				Subs:    []SubSpec{{Kind: "pullid", ID: "x", BP: bp, UpdatesOnly: uo, Consume: "none", Cancel: "end"}}})
 		}
 	}
+	// collections constructed with an equivalence option (WithNoDuplicates / WithMessageEquivalence / WithEquivalence),
+	// subscriptions with and without a read mask (one that selects the payload, one that selects only a field no item
+	// sets: every view is the empty message), items that are the empty message when they are removed or not: the
+	// removal still ends a PullID and is still told to a Pull subscriber
+	k := 0
+	for _, eq := range []string{"nodup", "msgeq", "equiv"} {
+		for _, mm := range [][2]string{{"", ""}, {"dur", ""}, {"dur", "nanos"}, {"dur", "seconds"}} {
+			for _, bp := range []bool{true, false} {
+				for _, ws := range [][]Op{{{Kind: "del", ID: "x"}}, {{Kind: "upd", ID: "x"}, {Kind: "del", ID: "x"}}, {{Kind: "upd", ID: "x"}, {Kind: "upd", ID: "w0-a"}, {Kind: "del", ID: "x"}, {Kind: "del", ID: "w0-a"}}} {
+					k++
+					add(Scenario{Class: "equivalence/pullid-removed", Res: "collection", Initial: []string{"x"}, Eq: eq, Msg: mm[0],
+						Writers: [][]Op{ws},
+						Subs:    []SubSpec{{Kind: "pullid", ID: "x", BP: bp, UpdatesOnly: k%3 == 0, Mask: mm[1], Consume: "drain", Cancel: "never"}}})
+					add(Scenario{Class: "equivalence/pull-told-of-remove", Res: "collection", Initial: []string{"x"}, Eq: eq, Msg: mm[0],
+						Writers: [][]Op{ws},
+						Subs:    []SubSpec{{Kind: "pull", BP: bp, UpdatesOnly: k%3 == 1, Mask: mm[1], Consume: "drain", Cancel: "end"}}})
+				}
+			}
+		}
+	}
+	// a consumer that stays away while the same item is deleted, re-added, deleted ... behind it, then goes on receiving
+	// without cancelling: with k changes of the item already parked in the stages of the subscription (none .. more than
+	// the stages hold) the tail of deletes / re-adds piles up in the lossy stage (mergeChanges: REMOVE+ADD = REPLACE,
+	// REPLACE+REMOVE = REMOVE, ADD+REMOVE = nothing ...) or - with backpressure - behind the blocked writer; whenever the
+	// item is gone in the end the PullID ends and the Pull subscriber has been told
+	tails := [][]string{{"del"}, {"del", "upd"}, {"del", "upd", "del"}, {"del", "upd", "upd", "del"}, {"del", "upd", "del", "upd"}, {"del", "upd", "del", "upd", "del"}}
+	for fill := 0; fill <= 3; fill++ {
+		for ti, tail := range tails {
+			for vi, v := range []struct {
+				kind string
+				bp   bool
+			}{{"pullid", false}, {"pull", false}, {"pullid", true}, {"pull", true}} {
+				if v.bp && (fill+ti)%2 == 1 {
+					continue // with backpressure nothing is merged: half the cases
+				}
+				var ops []Op
+				for i := 0; i < fill; i++ {
+					ops = append(ops, Op{Kind: "upd", ID: "x"})
+				}
+				ops = append(ops, Op{Kind: "nap"})
+				for _, t := range tail {
+					ops = append(ops, Op{Kind: t, ID: "x"})
+				}
+				uo := (fill+ti+vi)%4 == 3
+				sp := SubSpec{Kind: v.kind, BP: v.bp, UpdatesOnly: uo, Consume: "pause", StopAfter: 1, Cancel: "end"}
+				if uo {
+					sp.StopAfter = 0
+				}
+				if v.kind == "pullid" {
+					sp.ID = "x"
+					if tail[len(tail)-1] == "del" {
+						sp.Cancel = "never"
+					}
+				}
+				sc := Scenario{Class: "stalled-consumer-churn", Res: "collection", Initial: []string{"x"}, Writers: [][]Op{ops}, Subs: []SubSpec{sp}}
+				if (fill+ti)%3 == 2 {
+					sc.Writers = append(sc.Writers, collOps(1, 4, nil))
+				}
+				add(sc)
+			}
+		}
+	}
 	// collections with an id interceptor; subscriber and writers spell the ids differently (respell alternates
 	// canonical / non-canonical spellings): every single-item shape above, and the plain Pull shapes
 	n0 := len(res)
@@ -114,6 +177,13 @@ func fixedScenarios(f lib.Flags) []Scenario {
 				continue
 			}
 			pullid := sc.Subs[0].Kind == "pullid"
+			if strings.HasPrefix(sc.Class, "equivalence/") || sc.Class == "stalled-consumer-churn" {
+				// one in five, rotating over the interceptors
+				if (len(res)+len(icpt))%5 == 0 {
+					res = append(res, respell(sc, icpt, nil))
+				}
+				continue
+			}
 			if pullid || (sc.Class == "one-drain" || sc.Class == "stop-then-cancel") && !sc.Subs[0].UpdatesOnly {
 				res = append(res, respell(sc, icpt, nil))
 			}
@@ -224,6 +294,12 @@ func randomScenarios(f lib.Flags) []Scenario {
 			if r.Intn(3) == 0 {
 				sc.Initial = append(sc.Initial, "w0-a", "w1-b")
 			}
+			if r.Intn(4) == 0 {
+				sc.Eq = []string{"nodup", "msgeq", "equiv"}[r.Intn(3)]
+				if r.Intn(2) == 0 {
+					sc.Msg = "dur"
+				}
+			}
 		}
 		nsub := r.Intn(9)
 		if i < n/3 {
@@ -245,7 +321,14 @@ func randomScenarios(f lib.Flags) []Scenario {
 				ops = append(ops, Op{Kind: "upd", ID: "x"})
 			}
 			if r.Intn(2) == 0 {
+				if r.Intn(3) == 0 {
+					ops = append(ops, Op{Kind: "nap"})
+				}
 				ops = append(ops, Op{Kind: "del", ID: "x"})
+				// delete / re-add / delete ...: x is gone in the end
+				for j := r.Intn(3); j > 0 && r.Intn(2) == 0; j-- {
+					ops = append(ops, Op{Kind: "upd", ID: "x"}, Op{Kind: "del", ID: "x"})
+				}
 				xRemoved = true
 			}
 			if len(ops) > 0 {
@@ -258,7 +341,13 @@ func randomScenarios(f lib.Flags) []Scenario {
 				sp.Kind = "pullid"
 				sp.ID = "x"
 			}
-			switch r.Intn(5) {
+			if sc.Msg == "dur" && r.Intn(2) == 0 {
+				sp.Mask = []string{"nanos", "seconds"}[r.Intn(2)]
+			}
+			switch r.Intn(6) {
+			case 5:
+				sp.Consume = "pause"
+				sp.StopAfter = r.Intn(3)
 			case 4:
 				sp.Consume = "abandon"
 			case 0:
@@ -282,7 +371,7 @@ func randomScenarios(f lib.Flags) []Scenario {
 				sp.LingerUs = r.Intn(2) * 200
 			default:
 				sp.Cancel = "end"
-				if sp.Kind == "pullid" && xRemoved && sp.Consume == "drain" && r.Intn(2) == 0 {
+				if sp.Kind == "pullid" && xRemoved && (sp.Consume == "drain" || sp.Consume == "pause") && r.Intn(2) == 0 {
 					sp.Cancel = "never"
 				}
 			}
